@@ -667,8 +667,6 @@ Proof.
     + assert (Hs : exists n s, suf' = n :: s /\ (tprio (last rest r0) < tprio n)%Z).
       { destruct suf' as [|n s]; [discriminate|]. apply negb_false_iff, Z.ltb_lt in Efit. eauto. }
       destruct Hs as (n & s & -> & Hlt).
-      assert (Hlast : forall z, rest <> [] -> last rest z = last rest r0).
-      { clear. induction rest as [|a [|b r] IHr]; intros z H; cbn in *; auto; try congruence. apply IHr. discriminate. }
       destruct pre' as [|p0 pr'].
       * assert (Hm : mid' = []).
         { destruct Hcase as [Hc|[Hc Hd]]; [|congruence]. inversion Hc; subst.
@@ -676,7 +674,10 @@ Proof.
         subst. rewrite IH; [perm_solve|]. left; auto.
       * rewrite IH; [perm_solve|]. right. split; [discriminate|].
         destruct rest as [|r1 rest']; auto.
-        rewrite (Hlast r1) by discriminate. cbn in Hlt |- *. exact Hlt.
+        assert (Hc : forall l (a d : task), last (a :: l) d = last l a).
+        { clear. induction l as [|b l IHl]; intros a d; [reflexivity|].
+          change (last (a :: b :: l) d) with (last (b :: l) d). rewrite !IHl. reflexivity. }
+        rewrite Hc in Hlt. exact Hlt.
 Qed.
 
 Lemma llp_chain_perm l d ring : Permutation (llp_chain l d ring) (l ++ ring).
